@@ -96,6 +96,11 @@ fn bounded_op(cap: usize, start: usize, len: usize, op: &str, arg: i64) -> (Stri
             got = fmt((g, rb.iter().cloned().collect::<Vec<_>>()));
             want = fmt((w, m.iter().cloned().collect::<Vec<_>>()));
         }
+        "from_raw_parts" if arg == 3 => {
+            // a VALID (start, len): the buffer holds exactly the `len` elements from `start` on, wrapping (no truncation)
+            got = fmt((rb.len(), rb.iter().cloned().collect::<Vec<_>>(), unsafe { rb.into_raw_parts().0 }));
+            want = fmt((len, m.clone(), start));
+        }
         "from_raw_parts" => {
             // arg encodes an invalid (start, len): must panic
             let (bs, bl) = if arg == 0 { (cap, 0) } else { (0, cap + arg as usize) };
@@ -255,7 +260,7 @@ fn main() {
                     let nargs: Vec<i64> = match op {
                         "get" | "get_mut" | "index" => (0..(cap as i64 + 2)).collect(),
                         "drain" => (0..=cap as i64).collect(),
-                        "from_raw_parts" => vec![0, 1, 2],
+                        "from_raw_parts" => vec![0, 1, 2, 3],
                         "push" => vec![55],
                         _ => vec![0],
                     };
